@@ -53,7 +53,7 @@ Inductive event :=
 | Published (tag : Z)                (* MQTTMessageInfo._set_as_published *)
 | CbMessage (mid q tag : Z)          (* on_message *)
 | Raised                             (* an exception left the API / loop call *)
-| In (p : inpkt)                     (* the broker packet this operation processed *)
+| Inp (p : inpkt)                    (* the broker packet this operation processed *)
 | Reconn                             (* reconnect() was called (message stores are reset) *)
 | SockOpened (c : Z)                 (* reconnect() obtained a socket *)
 | SockLost.                          (* the connection ended *)
@@ -245,43 +245,43 @@ Definition do_rx (c : cfg) (s : sess) (p : inpkt) (raises : bool) : sess * list 
       let s1 := mkS (out s) (inm s) (inflight s) (last_mid s) (sock s) false true (conn s) (ntag s) in
       if rc =? 0 then
         let (o, ev) := connack_loop (conn s) (out s) in
-        (with_out s1 o (inflight s), In p :: ev)
-      else (with_sock s1 false, [In p; SockLost])
+        (with_out s1 o (inflight s), Inp p :: ev)
+      else (with_sock s1 false, [Inp p; SockLost])
   | IPuback mid | IPubcomp mid =>
       match find_mid mid (out s) with
-      | Some m => let (s', ev) := do_on_publish c s m in (s', In p :: ev)
-      | None => (s, [In p])
+      | Some m => let (s', ev) := do_on_publish c s m in (s', Inp p :: ev)
+      | None => (s, [Inp p])
       end
   | IPubrec mid =>
       if has_mid mid (out s) then
         (with_out s (update_mid mid (fun m => set_st m MsWaitPubcomp) (out s)) (inflight s),
          match find_mid mid (out s) with
-         | Some m => [In p; Tx (conn s) (PPubrel mid (o_tag m))]
-         | None => [In p]
+         | Some m => [Inp p; Tx (conn s) (PPubrel mid (o_tag m))]
+         | None => [Inp p]
          end)
-      else (s, [In p])
+      else (s, [Inp p])
   | IPubrel mid =>
       match in_find mid (inm s) with
       | Some tag =>
           let s1 := with_inm s (in_remove mid (inm s)) in
           let (ev, propagated) := deliver c mid 2 tag raises in
-          if propagated then (s1, In p :: ev)
-          else if c_manual c then (s1, In p :: ev)
-          else (s1, In p :: ev ++ [Tx (conn s) (PPubcomp mid)])
+          if propagated then (s1, Inp p :: ev)
+          else if c_manual c then (s1, Inp p :: ev)
+          else (s1, Inp p :: ev ++ [Tx (conn s) (PPubcomp mid)])
       | None =>
-          if c_manual c then (s, [In p]) else (s, [In p; Tx (conn s) (PPubcomp mid)])
+          if c_manual c then (s, [Inp p]) else (s, [Inp p; Tx (conn s) (PPubcomp mid)])
       end
   | IPublish q mid tag =>
       if q =? 0 then
         (* a QoS 0 PUBLISH carries no packet id: message.mid stays 0 *)
-        let (ev, _) := deliver c 0 0 tag raises in (s, In p :: ev)
+        let (ev, _) := deliver c 0 0 tag raises in (s, Inp p :: ev)
       else if q =? 1 then
         let (ev, propagated) := deliver c mid 1 tag raises in
-        if propagated then (s, In p :: ev)
-        else if c_manual c then (s, In p :: ev)
-        else (s, In p :: ev ++ [Tx (conn s) (PPuback mid)])
+        if propagated then (s, Inp p :: ev)
+        else if c_manual c then (s, Inp p :: ev)
+        else (s, Inp p :: ev ++ [Tx (conn s) (PPuback mid)])
       else
-        (with_inm s (in_set mid tag (inm s)), [In p; Tx (conn s) (PPubrec mid)])
+        (with_inm s (in_set mid tag (inm s)), [Inp p; Tx (conn s) (PPubrec mid)])
   end.
 
 Definition do_ack (c : cfg) (s : sess) (mid q : Z) : sess * list event :=
